@@ -15,7 +15,7 @@ Expressions
   None                          none : Option _     (type opt[T])
   x is None / x is not None     Option.isNone x / Option.isSome x   (x of type opt[T])
   max(xs) / min(xs)             Py.Small.maxOf / minOf (list of int; ValueError on the empty list)
-  len(set(xs))                  (List.eraseDups xs).length          (list of int)
+  len(set(xs))                  (Py.Small.distinct xs).length       (list of int)
   sorted(set(xs))               Py.Small.sortedSet xs               (list of int)
 Statements
   a, b = e        (e a list)    Py.unpack2 e   (ValueError unless the list has exactly two items)
@@ -80,6 +80,15 @@ class SmallCompiler(FuncCompiler):
 
     def collect_locals(self):
         names = FuncCompiler.collect_locals(self)
+        # names bound only as comprehension targets are scoped to their comprehension: not locals
+        comp_nodes = set()
+        for n in ast.walk(self.node):
+            if isinstance(n, ast.ListComp):
+                for g in n.generators:
+                    comp_nodes.update(id(t) for t in ast.walk(g.target))
+        outside = {n.id for n in ast.walk(self.node)
+                   if isinstance(n, ast.Name) and isinstance(n.ctx, (ast.Store, ast.Del)) and id(n) not in comp_nodes}
+        names = [n for n in names if n in outside]
         self.slots = self.slot_decl()
         for n, ts in self.slots.items():
             if n not in names and n not in self.params:
@@ -413,8 +422,10 @@ class SmallCompiler(FuncCompiler):
                 a = self.expr(e.args[0].args[0])
                 if self.kind(a, e) != 'list' or prune(prune(a.ty)[1]) not in (INT, NAT):
                     self.bad(e, 'set() of something that is not a list of int')
+                a = self.lift([a], lambda c: '(List.map (fun (i : Nat) => (Int.ofNat i)) %s)' % c[0], ('list', INT)) \
+                    if prune(prune(a.ty)[1]) == NAT else a
                 if f.id == 'len':
-                    return self.lift([a], lambda c: '(List.length (List.eraseDups %s))' % c[0], NAT)
+                    return self.lift([a], lambda c: '(List.length (Py.Small.distinct %s))' % c[0], NAT)
                 return self.lift([a], lambda c: '(Py.Small.sortedSet %s)' % c[0], a.ty)
         if isinstance(f, ast.Attribute) and not e.keywords and not (
                 f.attr == 'format' and isinstance(f.value, ast.Constant)):
@@ -429,6 +440,142 @@ class SmallCompiler(FuncCompiler):
                     return self.lift([recv], lambda c: '(Py.splitChar %s %s)' % (ch, c[0]), ('list', STR))
         return FuncCompiler.e_Call(self, e)
 
+    def e_ListComp(self, e):
+        """adds: one `if` filter; `for i, v in enumerate(xs)`"""
+        if len(e.generators) != 1:
+            self.bad(e, 'comprehension with several generators')
+        g = e.generators[0]
+        it = g.iter
+        is_enum = (isinstance(it, ast.Call) and isinstance(it.func, ast.Name) and it.func.id == 'enumerate'
+                   and 'enumerate' not in self.names and len(it.args) == 1 and not it.keywords)
+        if not g.ifs and not is_enum:
+            return FuncCompiler.e_ListComp(self, e)
+        if g.is_async or len(g.ifs) > 1:
+            self.bad(e, 'comprehension with several filters')
+        if is_enum:
+            if not (isinstance(g.target, ast.Tuple) and len(g.target.elts) == 2
+                    and all(isinstance(x, ast.Name) for x in g.target.elts) and g.target.elts[0].id != g.target.elts[1].id):
+                self.bad(e, 'enumerate() without a target `i, v`')
+            src = self.expr(it.args[0])
+            if self.kind(src, it) != 'list':
+                self.bad(e, 'enumerate() of a %s' % self.kind(src, it))
+            el = prune(src.ty)[1]
+            binds = [(g.target.elts[0].id, 'p.1', NAT), (g.target.elts[1].id, 'p.2', el)]
+            mk = lambda c: '(Py.Small.enumerate %s)' % c
+        else:
+            if not isinstance(g.target, ast.Name):
+                self.bad(e, 'comprehension with a non-name target')
+            src = self.expr(it)
+            if self.kind(src, it) != 'list':
+                self.bad(e, 'comprehension over a %s' % self.kind(src, it))
+            el = prune(src.ty)[1]
+            binds = [(g.target.id, 'p', el)]
+            mk = lambda c: c
+        if src.raises:
+            self.bad(e, 'comprehension over an expression that may raise')
+        for n, _, _ in binds:
+            if n in self.names:
+                self.bad(e, 'comprehension target %s shadows a local variable' % n)
+        for n, code, ty in binds:
+            self.names[n] = (code, ty)
+        try:
+            body = self.to_int(self.expr(e.elt))
+            cond = self.as_bool(self.expr(g.ifs[0]), g.ifs[0]) if g.ifs else None
+        finally:
+            for n, _, _ in binds:
+                del self.names[n]
+        if body.raises or (cond is not None and cond.raises):
+            self.bad(e, 'comprehension whose element or filter expression may raise')
+        if cond is None:
+            return Ex('(List.map (fun p => %s) %s)' % (body.code, mk(src.code)), ('list', body.ty))
+        return Ex('(List.filterMap (fun p => if %s then some %s else none) %s)' % (cond.code, body.code, mk(src.code)),
+                  ('list', body.ty))
+
     def is_set_call(self, n):
         return (isinstance(n, ast.Call) and isinstance(n.func, ast.Name) and n.func.id == 'set' and 'set' not in self.names
                 and len(n.args) == 1 and not n.keywords)
+
+
+# =================================================================================================
+# fragments: a run of statements / one expression of a method that is too object-oriented to be translated as a
+# whole (bufr.py BufrMessage.subset), translated as a function of its free variables
+class _Subst(ast.NodeTransformer):
+    def __init__(self, table):
+        self.table = table
+        self.used = set()
+
+    def visit(self, node):
+        if isinstance(node, ast.expr) and not isinstance(getattr(node, 'ctx', None), (ast.Store, ast.Del)):
+            try:
+                text = ast.unparse(node)
+            except Exception:
+                text = None
+            if text in self.table:
+                self.used.add(text)
+                return ast.copy_location(ast.Name(id=self.table[text][0], ctx=ast.Load()), node)
+        return self.generic_visit(node)
+
+
+def render_fragment(gen, fname, fs):
+    """SPEC 'fragments': {name: {'class', 'method', 'stmts': [a, b] + 'result' | 'expr': node type,
+    'params': {...}, 'subst': {source text of an expression: (parameter name, type)}}}.
+    The fragment becomes the function `name(params..., substituted names...)`:
+      stmts  -> the statements a..b-1 of the method body (docstring not counted), then `return <result>`
+      expr   -> `return <the one expression of that node type in the method>`
+    Every occurrence of a `subst` expression is replaced by its parameter (the expression is an attribute chain
+    the fragment only reads).  Returns (lean text, manifest item)."""
+    import copy
+    from harness import py2lean
+    mod = gen.mod
+    cnodes = mod.classes.get(fs['class'], [])
+    if len(cnodes) != 1:
+        raise py2lean.Py2LeanUnsupported(mod.relpath, 0, 'class %s not found exactly once' % fs['class'])
+    ms = [n for n in cnodes[0].body if isinstance(n, ast.FunctionDef) and n.name == fs['method']]
+    if len(ms) != 1:
+        raise py2lean.Py2LeanUnsupported(mod.relpath, cnodes[0], 'method %s.%s not found exactly once' % (fs['class'], fs['method']))
+    meth = ms[0]
+    body = list(meth.body)
+    if body and isinstance(body[0], ast.Expr) and isinstance(body[0].value, ast.Constant) and isinstance(body[0].value.value, str):
+        body = body[1:]
+    if 'stmts' in fs:
+        a, b = fs['stmts']
+        if len(body) < b:
+            raise py2lean.Py2LeanUnsupported(mod.relpath, meth, 'method %s has fewer than %d statements' % (fs['method'], b))
+        part = [copy.deepcopy(x) for x in body[a:b]]
+        ret = ast.Return(value=ast.Name(id=fs['result'], ctx=ast.Load()))
+        ast.copy_location(ret, part[-1])
+        ast.copy_location(ret.value, part[-1])
+        first, last = part[0].lineno, part[-1].end_lineno
+        new_body = part + [ret]
+    else:
+        found = [n for n in ast.walk(meth) if type(n).__name__ == fs['expr']]
+        if len(found) != 1:
+            raise py2lean.Py2LeanUnsupported(mod.relpath, meth, 'method %s: %d expressions of type %s (expected one)'
+                                             % (fs['method'], len(found), fs['expr']))
+        node = copy.deepcopy(found[0])
+        ret = ast.Return(value=node)
+        ast.copy_location(ret, node)
+        first, last = node.lineno, node.end_lineno
+        new_body = [ret]
+    sub = _Subst(fs.get('subst', {}))
+    new_body = [sub.visit(x) for x in new_body]
+    missing = set(fs.get('subst', {})) - sub.used
+    if missing:
+        raise py2lean.Py2LeanUnsupported(mod.relpath, first, 'fragment %s: expression %s no longer occurs' % (fname, sorted(missing)))
+    params = dict(fs['params'])
+    for text, (pn, pt) in fs.get('subst', {}).items():
+        params[pn] = pt
+    fn = ast.FunctionDef(name=fname, args=ast.arguments(posonlyargs=[], args=[ast.arg(arg=p) for p in params], vararg=None,
+                                                        kwonlyargs=[], kw_defaults=[], kwarg=None, defaults=[]),
+                         body=new_body, decorator_list=[], returns=None, type_comment=None)
+    fn.lineno, fn.end_lineno, fn.col_offset, fn.end_col_offset = first, last, 0, 0
+    ast.fix_missing_locations(fn)
+    fc = SmallCompiler(mod, gen, fn, lean_ident(fname), {p: parse_type(t) for p, t in params.items()})
+    fc.spec = fs
+    what = ('statements %d-%d' % (fs['stmts'][0] + 1, fs['stmts'][1])) if 'stmts' in fs else ('the %s expression' % fs['expr'])
+    doc = '/-- %s:%d-%d  fragment of `%s.%s`: %s%s -/' % (
+        mod.relpath, first, last, fs['class'], fs['method'], what,
+        ''.join('; `%s` is the parameter `%s`' % (t, pn) for t, (pn, _) in fs.get('subst', {}).items()))
+    text, raises = fc.render(doc)
+    item = {'kind': 'fragment', 'name': '%s.%s:%s' % (fs['class'], fs['method'], fname), 'lines': [first, last], 'may_raise': raises}
+    return text, item
